@@ -19,12 +19,13 @@ FormDim == { [values |-> <<>>, file |-> "", json |-> "", jsonkind |-> ""], [valu
              [values |-> <<>>, file |-> "", json |-> "json-field", jsonkind |-> "struct"], [values |-> <<"v">>, file |-> "f", json |-> "meta", jsonkind |-> "struct"],
              [values |-> <<>>, file |-> "", json |-> "label", jsonkind |-> "string"], [values |-> <<"w">>, file |-> "", json |-> "note", jsonkind |-> "string"] }
 RetDim == {"none", "json", "jsonlit", "pretty", "blob"}
+WhereDim == {"stmt", "closure", "block"}    \* where the registration stands: a statement of routes(), inside a function literal handed to a method, inside an if
 
 (* the contract is a product of independent parts: the registration side is varied with a fixed
    body, and the body side with a fixed registration (the full product has 252 000 elements) *)
 NoForm == [values |-> <<>>, file |-> "", json |-> "", jsonkind |-> ""]
-Regs == [verb : VerbDim, path : PathDim, handler : HandlerDim, input : {"struct"}, query : {<<"plain:q1">>}, form : {NoForm}, ret : {"json"}]
-        \cup [verb : {"POST"}, path : {<<"pkg">>}, handler : {"method"}, input : InputDim, query : QueryDim, form : FormDim, ret : RetDim]
+Regs == [verb : VerbDim, path : PathDim, handler : HandlerDim, input : {"struct"}, query : {<<"plain:q1">>}, form : {NoForm}, ret : {"json"}, where : WhereDim]
+        \cup [verb : {"POST"}, path : {<<"pkg">>}, handler : {"method"}, input : InputDim, query : QueryDim, form : FormDim, ret : RetDim, where : {"stmt"}]
 
 VARIABLES reg, done
 Init == reg \in Regs /\ done = FALSE
@@ -39,5 +40,5 @@ WellFormed == /\ E.url # ""
 
 ExportPost == TLCGet("level") >= 0 /\ ndJsonSerialize(IOEnv.VERIF_EXPORT,
     <<[verbs |-> SetToSeq(VerbDim), paths |-> SetToSeq(PathDim), handlers |-> SetToSeq(HandlerDim), inputs |-> SetToSeq(InputDim),
-       queries |-> SetToSeq(QueryDim), forms |-> SetToSeq(FormDim), rets |-> SetToSeq(RetDim)]>>)
+       queries |-> SetToSeq(QueryDim), forms |-> SetToSeq(FormDim), rets |-> SetToSeq(RetDim), wheres |-> SetToSeq(WhereDim)]>>)
 =============================================================================
